@@ -85,17 +85,38 @@ func (ex *iexec) selSet(n inode, ss ast.SelectionSet) (map[string]interface{}, e
 		if err != nil {
 			return nil, err
 		}
-		if prev, ok := out[key].(map[string]interface{}); ok {
-			if cur, ok := c.(map[string]interface{}); ok { // same key selected twice: merge
-				for k, x := range cur {
-					prev[k] = x
-				}
-				continue
-			}
+		if prev, ok := out[key]; ok { // same key selected twice: the selection sets merge
+			out[key] = mergeSelected(prev, c)
+			continue
 		}
 		out[key] = c
 	}
 	return out, nil
+}
+
+// mergeSelected merges what two selections of one response key produced (objects member-wise, lists entry-wise).
+func mergeSelected(prev, cur interface{}) interface{} {
+	switch p := prev.(type) {
+	case map[string]interface{}:
+		if c, ok := cur.(map[string]interface{}); ok {
+			for k, x := range c {
+				if old, ok := p[k]; ok {
+					p[k] = mergeSelected(old, x)
+				} else {
+					p[k] = x
+				}
+			}
+			return p
+		}
+	case []interface{}:
+		if c, ok := cur.([]interface{}); ok && len(c) == len(p) {
+			for i := range p {
+				p[i] = mergeSelected(p[i], c[i])
+			}
+			return p
+		}
+	}
+	return cur
 }
 
 func (ex *iexec) complete(v interface{}, f *ast.Field) (interface{}, error) {
